@@ -461,7 +461,7 @@ class C08(Lab):
         "robotInit() is called directly on the robot object (no control loop is needed for this property)",
     )
     budgets = {"quick": 1500, "thorough": 100000}
-    time_budget = {"quick": 80, "thorough": 1500}
+    time_budget = {"quick": 240, "thorough": 3600}
 
     def setup(self):
         simenv.init()
